@@ -100,11 +100,20 @@ def h_iterate(ctx, case):
     nr, nc = case['shape']
     enc = case['enc']
     env = Env(ctx)
-    dense = dense_from_bits(ctx, 'x', nr, nc)
+    dt = np.dtype(case.get('dtype', 'float64'))
+    if dt.kind in 'iu':
+        # 64-bit integer counts: values anywhere in the type's range
+        from symx.npshim import LOSSLESS
+        LOSSLESS['on'] = ctx.mode == 'sym'
+        dense = dense_from_bits(ctx, 'x', nr, nc, -(2 ** 62), 2 ** 62,
+                                ints_only=True)
+    else:
+        dense = dense_from_bits(ctx, 'x', nr, nc)
     layer = case.get('layer', 'X')
     path = env.path('q.h5ad')
     write_h5ad_x(env, path, dense, enc,
-                 layer='X' if layer == 'X' else f'layers/{layer}')
+                 layer='X' if layer == 'X' else f'layers/{layer}',
+                 dtype=dt.type)
     what = case.get('what', 'iter')
     chunk = ctx.int('row_chunk_size', 1, nr + 2) if what == 'iter' else 2
     if enc == 'csc':
@@ -242,6 +251,10 @@ HARNESSES = [
                 'interleave': True},
                {'shape': [3, 1], 'enc': 'dense', 'what': 'iter',
                 'interleave': True},
+               {'shape': [2, 2], 'enc': 'csc', 'what': 'iter',
+                'dtype': 'int64'},
+               {'shape': [2, 2], 'enc': 'csr', 'what': 'iter',
+                'dtype': 'int64'},
                {'shape': [3, 2], 'enc': 'csr', 'what': 'batch'},
                {'shape': [3, 2], 'enc': 'dense', 'what': 'batch'},
                {'shape': [2, 2], 'enc': 'csc', 'what': 'batch'},
@@ -262,7 +275,9 @@ HARNESSES = [
                    '2x3, 1x3) incl. empty rows/columns and no stored '
                    'entry; dense/CSR/CSC; X and a named layer; chunk size '
                    'symbolic in [1, rows+2]; every block size of the CSC '
-                   'conversion; every contiguous sub-range; every '
+                   'conversion; float64 values, and 64-bit integer values '
+                   'anywhere in +-2^62 (a value must not pass through a '
+                   'floating-point array); every contiguous sub-range; every '
                    'duplicate-free row list',
             outside='row lists with repeats (docstring: "set of row '
                     'indexes"); HDF5 chunk layout / dtype conversion in '
